@@ -204,9 +204,11 @@ def generate(tier, seed):
             add("year_diff a=%d b=%d" % (y, b), "year_diff")
         if -32767 < y < 32767:
             add("incdec what=year v=%d" % y, "incdec")
-    for v in range(1, 13):
+    # stored values outside 1..12 / 0..6 are representable (month{13}, weekday{8}): ++/-- must still go through
+    # `*this += months{1}` / `days{1}`, i.e. normalise ([time.cal.month.members], [time.cal.wd.members])
+    for v in list(range(1, 13)) + [0, 13, 14, 24, 25, 255]:
         add("incdec what=month v=%d" % v, "incdec")
-    for v in range(0, 7):
+    for v in list(range(0, 7)) + [8, 13, 14, 255]:   # 7 is Sunday by construction
         add("incdec what=weekday v=%d" % v, "incdec")
     for v in range(1, 32):
         add("incdec what=day v=%d" % v, "incdec")
